@@ -525,7 +525,9 @@ func runPerm(t *testing.T, sched simrt.Schedule, prog permProg) ([]Violation, Ru
 			dv := div.filter(cacheVsStore(w, post, where), cause, detachedDiverged)
 			if failed {
 				for i := range dv {
-					if dv[i].Property == "C08" {
+					// (a divergence that is a recorded finding under its own key needs no attribution to the failure:
+					// the failed call may have been a harmless read inside a request that succeeded)
+					if dv[i].Property == "C08" && !loadKnownFindings()["C08 "+dv[i].Key] {
 						dv[i].Key = "store-fault-partial-effect " + cause
 					}
 				}
